@@ -545,3 +545,25 @@ package secp256k1
 //@   panics !p.isValid
 //@   ensures result.isValid && abs(result) == smul(LAMBDA, abs(p))
 //@   fresh result
+//@
+//@ func lookupAffinePoint
+//@   props C05 C17 C19
+//@   requires idx <= 15 && val(out.x) == 0 && val(out.y) == 0
+//@   ensures val(out.x) == tselx(tbl, idx, 0) && val(out.y) == tsely(tbl, idx, 0)
+//@   modifies *out
+//@
+//@ func (*affinePointMultTable).SelectAndAdd
+//@   props C05 C17
+//@   weak sum
+//@   split value idx in 0..15
+//@   requires idx <= 15 && tblok(tbl) && onc(sum)
+//@   ensures onc(sum) && abs(sum) == padd(old(abs(sum)), smul(idx, old(abs(tbl[0])))) && result == sum
+//@   using aff_coords(val(ap.x), val(ap.y))
+//@   modifies sum.x, sum.y, sum.z
+//@
+//@ func (*hugeAffinePointMultTable).SelectAndAddVartime
+//@   props C05
+//@   weak sum
+//@   requires idx <= 255 && tblok(tbl) && onc(sum)
+//@   ensures onc(sum) && abs(sum) == padd(old(abs(sum)), smul(idx, old(abs(tbl[0])))) && result == sum
+//@   modifies sum.x, sum.y, sum.z
